@@ -1,6 +1,8 @@
 package rules
 
 import (
+	"fmt"
+	"sort"
 	"go/ast"
 	"go/token"
 	"go/types"
@@ -49,6 +51,9 @@ func checkC33(c *core.Ctx) {
 	ruleResetPipeline(c)
 	ruleBatcherItemErrors(c)
 	ruleStopDriverUnregisters(c)
+	ruleContextPerAttempt(c)
+	ruleReplicationSeesLogsInIDOrder(c)
+	rulePartiallyFilledSlots(c)
 }
 
 func ruleAckBeforeAdvance(c *core.Ctx) {
@@ -511,4 +516,23 @@ func exprOfStmt(s ast.Stmt) ast.Expr {
 		return es.X
 	}
 	return &ast.Ident{Name: "_"}
+}
+
+// ruleReplicationSeesLogsInIDOrder (LOCK): the pipeline pages `id > LastLogID order by id` and
+// never looks back. That is complete only if logs become visible (commit) in id order, which
+// InsertLog guarantees by holding the per-ledger transaction lock from the id allocation to the
+// commit — for the HASH_LOGS values it takes the lock for. For every other configured value a
+// log with a lower id can commit after the pipeline passed it, and is never exported.
+func ruleReplicationSeesLogsInIDOrder(c *core.Ctx) {
+	locked := ruleLogInsertLock(c)
+	maps := featureTableMaps(c)
+	conf := maps["FeatureConfigurations"]["HASH_LOGS"]
+	if len(conf) == 0 {
+		c.Unrecognised("LOCK/replication-order", "HASH_LOGS:values", "", "the configurations of HASH_LOGS were not found in pkg/features")
+		return
+	}
+	sort.Strings(conf)
+	for _, v := range conf {
+		c.Check(stmtMayRead(locked, v), "LOCK/replication-order", "HASH_LOGS="+v, "", "InsertLog holds the per-ledger lock until commit", fmt.Sprintf("with HASH_LOGS=%s InsertLog allocates the log id without holding the per-ledger lock until commit (it takes it only for %v): writer A draws id 10, writer B draws 11 and commits, the pipeline exports up to 11 and persists that position, A commits — log 10 is never exported", v, locked))
+	}
 }
